@@ -387,9 +387,11 @@ def _game_family(name, shard):
             _FAMILIES[key] = [U.U_F_build(c, shard.get("focus_reward", 1))[0] for c in U.U_F_cases(shard["max_deg"])]
         elif name == "U-D":
             _FAMILIES[key] = U.U_D_games()
-        elif name in ("U-E", "U-C", "U-L", "U-R", "U-P2", "U-N", "U-W", "U-Z", "U-G"):
+        elif name == "U-H":
+            _FAMILIES[key] = U.U_H_games()
+        elif name in ("U-E", "U-C", "U-L", "U-R", "U-P2", "U-N", "U-W", "U-Z", "U-G", "U-K"):
             _FAMILIES[key] = {"U-E": U.U_E_games, "U-C": U.U_C_games, "U-L": U.U_L_games, "U-R": U.U_R_games,
-                              "U-P2": U.U_P2_games, "U-N": U.U_N_games, "U-W": U.U_W_games, "U-Z": U.U_Z_games, "U-G": U.U_G_games}[name]()
+                              "U-P2": U.U_P2_games, "U-N": U.U_N_games, "U-W": U.U_W_games, "U-Z": U.U_Z_games, "U-G": U.U_G_games, "U-K": U.U_K_games}[name]()
         elif name == "U-A":
             _FAMILIES[key] = U.U_A_games(U.U_A_SIZES_ALL if shard.get("all_sizes") else U.U_A_SIZES_QUICK)
         elif name == "U-X":
